@@ -74,7 +74,7 @@ def convert_input_data(obj, rec=None):
     elif isinstance(obj, MappingType):
         return FrozenDict((rec(key, rec), rec(value, rec))
                           for key, value in obj.items())
-    elif isinstance(obj, MutableSetType):
+    elif isinstance(obj, SetType):
         return frozenset(rec(t, rec) for t in obj)
     elif isinstance(obj, IterableType):
         return map(lambda v: rec(v, rec), obj)
